@@ -89,7 +89,7 @@ def sm_simfile_table(ctx: Ctx, raw_key_ok: bool = False) -> None:
         return OneOf(*[(f"{s}[{K}] = {v}",) for v in _value_spec(a, MULTI, VNONE, P)])
 
     decs = _loop_decs(sums, line, [s], fix)
-    ctx.floor("paths through the SMSimfile._parse loop", len(decs), 3)
+    ctx.floor("paths through the SMSimfile._parse loop", len(decs), 1)
     judge(ctx, "R-TABLE", fi, "each parameter: NOTES -> chart from all components; ATTACKS/DISPLAYBPM with a value -> components joined with ':'; otherwise the first value, under the upper-cased key",
           decs, [NOTES, MULTI, VNONE], spec, equiv=_value_equiv(P, VNONE), why="what the reader stores must be what the writer splits (':' for multi-value keys) and nothing else")
 
@@ -112,7 +112,7 @@ def ssc_chart_table(ctx: Ctx, raw_key_ok: bool = False) -> None:
         return OneOf(*[(f"{s}[{K}] = {v}",) + tail for v in _value_spec(a, MULTI, VNONE, P)])
 
     decs = _loop_decs(sums, line, [s], fix)
-    ctx.floor("paths through the SSCChart._parse loop", len(decs), 4)
+    ctx.floor("paths through the SSCChart._parse loop", len(decs), 1)
     judge(ctx, "R-TABLE", fi, "each chart parameter is stored under its upper-cased key (multi-value joined); parsing stops after the notes item, recognised by key", decs,
           [MULTI, VNONE, NK], spec, equiv=_value_equiv(P, VNONE), why=f"the loop must stop exactly at a key in {keyset} and store every parameter before that")
     # before the loop: the first parameter is taken with next() and must be NOTEDATA
@@ -182,7 +182,7 @@ def ssc_simfile_table(ctx: Ctx, raw_key_ok: bool = False, relaxed: bool = False)
     NK_key = ckey(NK)
     PCN_key = ckey(PCN)
     decs = _loop_decs(sums, line, [s, pc], fix, post)
-    ctx.floor("paths through the SSCSimfile._parse loop", len(decs), 6)
+    ctx.floor("paths through the SSCSimfile._parse loop", len(decs), 1)
     judge(ctx, "R-TABLE", fi, "NOTEDATA closes the open chart and opens a new one; any other parameter goes to the open chart, or to the simfile while none is open", decs,
           [ND, PCN, MULTI, VNONE], spec, dont_care=[NK] if relaxed else (), equiv=_value_equiv(P, VNONE), why="parameters after a NOTEDATA belong to that chart; a chart is complete when the next NOTEDATA (or the end) arrives")
     # before the loop no chart is open; after it the open chart (if any) is appended
